@@ -8,6 +8,7 @@ mkdir -p .build evidence replays
 if [ -d tools/factgen ]; then
   (cd tools/factgen && go run . -repo "${VERIF_REPO:-/repo}" -out ../../lean/TmVerif/Facts/Generated.lean)
 fi
+python3 tools/gendrivers.py
 (cd lean && lake build TmVerif tmv)
 (cd harness && cp -f "${VERIF_REPO:-/repo}/go.sum" go.sum 2>/dev/null || true; go build -tags verif -o ../.build/tmh ./cmd/tmh)
 echo setup-ok
